@@ -106,6 +106,12 @@ def run(ctx, specdir, module, cfg=None, workers="auto", timeout=600, extra_files
         cmd += list(args)
     cmd += [module + ".tla"]
     t0 = time.time()
+    # the budgets were measured on an idle machine: on a loaded one (other checks running alongside) they stretch with the
+    # load per core, so that a slow model-checking run ends as a result and not as a timeout
+    try:
+        timeout = int(timeout * min(6.0, max(1.0, 1.5 * os.getloadavg()[0] / (os.cpu_count() or 1))))
+    except OSError:
+        pass
     env = dict(os.environ)
     env.pop("JAVA_TOOL_OPTIONS", None)
     try:
